@@ -114,6 +114,15 @@ def history_lines(pid, rng, tier):
         stack = []
         for t in ops:
             if t[0].startswith("q."):
+                # membership queries (mostly with strings OUTSIDE the algebra) and other read-only calls on the same object first:
+                # they run the reduction pipeline against the stored canonical graphs and must leave them alone
+                if cur and len(set(map(len, cur))) == 1 and rng.random() < 0.5:
+                    L = len(cur[0])
+                    for _ in range(rng.randint(1, 2)):
+                        xs = [G.rs(rng, L) for _ in range(rng.randint(1, 2))]
+                        new.append(rng.choice(["q.isin:", "q.isin:", "q.seldep:"]) + ",".join(xs))
+                    if rng.random() < 0.3:
+                        new.append(rng.choice(["q.alg", "q.verts", "q.dim", "q.indeps"]))
                 q = rng.choice(HQ[pid])
                 if q in ("q.isin", "q.seldep"):
                     L = len(cur[0]) if cur else maxn
@@ -198,3 +207,58 @@ def history_stream(pid, rng, tier):
     return Stream("queried-edited-queried", history_lines(pid, rng, tier), IC.handle, oracle=history_oracle(pid), shrink=C10.shrink,
                   tag=lambda l, o: "hist" + (":err" if "!" in o else ""),
                   nontrivial=lambda l, o: any(x.split(":")[0] in ("rep", "con", "rem", "del", "exp", "sort", "ins") for x in l.split(" ")[2].split(";")))
+
+
+# ---------------------------------------------------------------- generators ASSEMBLED through the in-place API
+# (every classifier property is stated for collections, whatever way their PauliString objects came into being: a string
+#  written block-wise with set_substring / item assignment, tensored, multiplied, expanded or copied-and-overwritten must be
+#  classified like the same text parsed afresh; anything a string remembers beside its letters — parity masks, hash, index —
+#  is exercised here)
+from pollute import assembled_string
+
+def assembled_coll(arg, r):
+    from paulie.common.pauli_string_collection import PauliStringCollection
+    ss = impl_graph.strs(arg)
+    ps = [assembled_string(s, r) for s in ss]
+    # the text of an assembled string must be the text asked for (C18); if it is not, classify what was asked for by text so that
+    # this stream judges the classifier only on its own account
+    ps = [p if str(p) == s else __import__("paulie.common.pauli_string_bitarray", fromlist=["PauliString"]).PauliString(pauli_str=s) for p, s in zip(ps, ss)]
+    if r.random() < 0.3 and ss and len(set(map(len, ss))) == 1:
+        c = PauliStringCollection([])
+        for p in ps:
+            c.append(p)
+        if [str(g) for g in c.get()] == list(dict.fromkeys(ss)) and len(set(ss)) == len(ss):
+            return c
+    return PauliStringCollection(ps)
+
+def assembled_handle(line):
+    import random as _r
+    _, seed, inner = line.split(" ", 2)
+    r = _r.Random("asm:" + seed + ":" + inner)
+    old = impl_classify.coll
+    impl_classify.coll = lambda arg: assembled_coll(arg, r)
+    try:
+        return impl_classify.handle(inner)
+    finally:
+        impl_classify.coll = old
+
+def assembled_stream(lines, batch_oracle, **kw):
+    """the same protocol lines, answered by collections whose strings were assembled in place; judged by the same oracle"""
+    kw = {k: v for k, v in kw.items() if k not in ("shrink", "canon", "batch_oracle")}
+    tag = kw.pop("tag", None); nt = kw.pop("nontrivial", None)
+    inner = lambda l: l.split(" ", 2)[2]
+    return Stream("generators-assembled-through-the-in-place-API", [f"asm {j} {l}" for j, l in enumerate(lines)], assembled_handle,
+                  batch_oracle=lambda ls, outs: batch_oracle([inner(l) for l in ls], outs), model=False,
+                  tag=(lambda l, o: "asm:" + tag(inner(l), o)) if tag else None,
+                  nontrivial=(lambda l, o: nt(inner(l), o)) if nt else None, **kw)
+
+def replay_special(pid, line, batch_oracle):
+    """replay of the lines that are not plain protocol lines (edit histories, assembled generators); None = not special"""
+    if line.startswith("hist "):
+        out = IC.handle(line); why = history_oracle(pid)(line, out)
+    elif line.startswith("asm "):
+        out = assembled_handle(line); why = batch_oracle([line.split(" ", 2)[2]], [out])[0]
+    else:
+        return None
+    print("line:", line); print("implementation:", out[:600]); print("oracle:", why or "holds")
+    return 1 if why else 0
